@@ -287,7 +287,9 @@ class _LocalDatePatternParser(_IPatternParser[LocalDate]):
             """Optimized computation for a pattern with an ISO calendar template value, and year/month/day fields."""
             day: int = self._day_of_month
             month: int = self._month_of_year_numeric
-            # Note: year is always valid, as it's already validated to be in the range -9999 to 9999.
+            # Note: the year field accepts -9999 to 9999, which is one year more than the ISO calendar supports.
+            if self._year > self._calendar.max_year or self._year < self._calendar.min_year:
+                return ParseResult._field_value_out_of_range_post_parse(text, self._year, "u", LocalDate)
 
             if month > 12:
                 return ParseResult._month_out_of_range(text, month, self._year)
